@@ -17,18 +17,20 @@ from fractions import Fraction as Fr
 import common as C
 from props.base import NAN, Prop, chunks, dec, decs, enc, encs
 
-QUANTI_M = ("kruskal", "R", "distance")
+QUANTI_M = ("kruskal", "R", "distance", "iqr")
 QUALI_M = ("chi2", "cramerv", "tschuprowt", "rkruskal")
 COLNAME = {"kruskal": "kruskal_measure", "R": "R_measure", "distance": "distance_measure",
            "chi2": "chi2_statistic", "cramerv": "cramerv_measure",
-           "tschuprowt": "tschuprowt_measure", "rkruskal": "kruskal_measure"}
+           "tschuprowt": "tschuprowt_measure", "rkruskal": "kruskal_measure", "iqr": "pct_iqr"}
 THRESH_KW = {"kruskal": "thresh_kruskal", "R": "thresh_R", "distance": "thresh_distance",
              "chi2": "thresh_chi2", "cramerv": "thresh_cramerv", "tschuprowt": "thresh_tschuprowt",
-             "rkruskal": "thresh_kruskal"}
+             "rkruskal": "thresh_kruskal", "iqr": "thresh_iqr"}
+THRESH_DEFAULT = {"iqr": 1.0}
+GATES = ("iqr",)   # outlier screening: pct_* < thresh_*, not an association measure
 RANKING = {"kruskal": True, "R": True, "distance": True, "chi2": False, "cramerv": True,
-           "tschuprowt": True, "rkruskal": True}
+           "tschuprowt": True, "rkruskal": True, "iqr": False}
 FALSY_NAN = {"kruskal": False, "R": True, "distance": True, "chi2": False, "cramerv": False,
-             "tschuprowt": False, "rkruskal": False}
+             "tschuprowt": False, "rkruskal": False, "iqr": False}
 TOL = 1e-9
 BIG = Fr(10 ** 40)
 
@@ -181,6 +183,30 @@ def tschuprowt4_exact(xs, ys, full=False):
     return chi2 * chi2 / (n * n) / ((r - 1) * (c - 1))
 
 
+def quantile_exact(vals, p, method="linear"):
+    """pandas Series.quantile on the sorted non-missing values (Fractions)"""
+    m = len(vals)
+    pos = Fr(m - 1) * p
+    lo = pos.numerator // pos.denominator
+    frac = pos - lo
+    a, b = vals[lo], vals[min(lo + 1, m - 1)]
+    if method == "lower" or frac == 0:
+        return a
+    if method == "higher":
+        return b
+    return a + (b - a) * frac
+
+
+def iqr_exact(xs, method="linear"):
+    """share of rows outside [q1 - 1.5 iqr, q3 + 1.5 iqr] (missing rows count as outside)"""
+    vals = sorted(fr(v) for v in xs if not isnan(v))
+    if not vals:
+        return None
+    q1, q3 = quantile_exact(vals, Fr(1, 4), method), quantile_exact(vals, Fr(3, 4), method)
+    lo, hi = q1 - Fr(3, 2) * (q3 - q1), q3 + Fr(3, 2) * (q3 - q1)
+    return Fr(sum(1 for v in xs if isnan(v) or not lo <= fr(v) <= hi), len(xs))
+
+
 def sgn_sq(x):
     x = Fr(x)
     return x * x if x >= 0 else -(x * x)
@@ -232,6 +258,8 @@ def measure_exact(kind, xs, ys):
         v = kruskal_exact(groups + ([[]] if has_nan else []))
         sp = kruskal_exact(groups)
         return {"model": v, "spec": None if sp == "err" else sp}
+    if kind == "iqr":
+        return {"model": iqr_exact(xs), "spec": None}
     if kind == "distance":
         a, b = complete_pairs(xs, ys)
         p = pearson_exact([fr(v) for v in a], [fr(v) for v in b])
@@ -254,7 +282,7 @@ def measure_exact(kind, xs, ys):
 def thresh_keys(kind, t):
     """(model threshold key, spec threshold key) for a user threshold t (float, exact)"""
     t = Fr(t)
-    if kind in ("kruskal", "rkruskal", "chi2"):
+    if kind in ("kruskal", "rkruskal", "chi2", "iqr"):
         return t, t
     if kind in ("R", "cramerv"):
         return sgn_sq(t), sgn_sq(t)
@@ -267,7 +295,7 @@ def thresh_keys(kind, t):
 
 def value_as_float(kind, key):
     """the float the implementation should report for an exact model key"""
-    if kind in ("kruskal", "rkruskal", "chi2"):
+    if kind in ("kruskal", "rkruskal", "chi2", "iqr"):
         return float(key)
     if kind in ("R", "cramerv"):
         return math.sqrt(float(key))
@@ -352,7 +380,7 @@ def build_tables(case, out):
         # thresholds
         mthr, sthr = [], []
         for k in ms:
-            a, b = thresh_keys(k, kwf(case, THRESH_KW[k], 0.0))
+            a, b = thresh_keys(k, kwf(case, THRESH_KW[k], THRESH_DEFAULT.get(k, 0.0)))
             mthr.append(a)
             sthr.append(b)
         # pairwise associations per filter (symmetric)
@@ -494,10 +522,11 @@ def spec_failures(case, tabs, sel):
         out = [f for f in sel if f in names]
         ms = t["ms"]
         row = {r["name"]: r for r in t["rows"]}
-        if not ms:
+        assoc = [j for j, k in enumerate(ms) if k not in GATES]
+        if not assoc:
             continue
-        # sorted by decreasing strength of the last requested measure
-        last = len(ms) - 1
+        # sorted by decreasing strength of the last requested association measure
+        last = assoc[-1]
         st = [row[f]["spec"][last] for f in out]
         for a, b, fa, fb in zip(st, st[1:], out, out[1:]):
             if a is None or b is None or a < b:
@@ -505,7 +534,7 @@ def spec_failures(case, tabs, sel):
                                                f"association with the target is smaller or undefined "
                                                f"({_f(a)} < {_f(b)})"))
                 break
-        if len(out) > t["n_best"] * len(ms):
+        if len(out) > t["n_best"] * len(assoc):
             fails.append(("count", dtype, f"{len(out)} features returned, n_best={t['n_best']}, {len(ms)} measures"))
         for flt in t["filters"]:
             for i, f in enumerate(out):
@@ -521,6 +550,9 @@ def spec_failures(case, tabs, sel):
             r = row[f]
             if not Fr(r["cnt_nan"], n) < t["tnan"] or not Fr(r["cnt_mode"], n) < t["tmode"]:
                 continue  # fails thresh_nan / thresh_mode
+            if any(k in GATES and r["raw"][j]["key"] is not None and not r["raw"][j]["key"] < t["mthr"][j]
+                   for j, k in enumerate(ms)):
+                continue  # screened out by an outlier gate (pct_iqr >= thresh_iqr)
             for j, k in enumerate(ms):
                 s = r["spec"][j]
                 if s is None or s <= 0 or s < t["sthr"][j]:
@@ -598,10 +630,11 @@ def make_selector(case):
     from AutoCarver.selectors import ClassificationSelector, RegressionSelector
     from AutoCarver.selectors.filters import cramerv_filter, pearson_filter, spearman_filter, tschuprowt_filter
     from AutoCarver.selectors.measures import (R_measure, chi2_measure, cramerv_measure, distance_measure,
-                                               kruskal_measure, tschuprowt_measure)
+                                               iqr_measure, kruskal_measure, tschuprowt_measure)
     from AutoCarver.selectors.measures.base_measures import reverse_xy
 
     M = {"kruskal": kruskal_measure, "R": R_measure, "distance": distance_measure, "chi2": chi2_measure,
+         "iqr": iqr_measure,
          "cramerv": cramerv_measure, "tschuprowt": tschuprowt_measure}
     F = {"spearman": spearman_filter, "pearson": pearson_filter, "cramerv": cramerv_filter,
          "tschuprowt": tschuprowt_filter}
@@ -866,6 +899,10 @@ def gen_case(rng, kind=None):
         else:
             qm = rng.choice([["kruskal", "R"], ["R", "kruskal"]])
             lm = rng.choice([["cramerv", "tschuprowt"], ["chi2", "tschuprowt"], ["tschuprowt"]])
+        if qm and qm[0] in ("kruskal", "R") and rng.random() < 0.25:
+            qm = ["iqr"] + qm
+            if rng.random() < 0.7:
+                kw["thresh_iqr"] = rng.choice([1 / 16, 1 / 8, 1 / 4, 1 / 2])
         if rng.random() < 0.5:
             for k, vals in (("thresh_kruskal", [3.0, 1e9, 0.5]), ("thresh_R", [0.3, 5.0]),
                             ("thresh_chi2", [4.0, 1e9]), ("thresh_cramerv", [0.3, 5.0]),
@@ -924,6 +961,148 @@ def gen_boundary_case(rng):
                    [rng.choice(["cramerv", "cramerv", "tschuprowt"])], kw)
 
 
+def _top(keys, k):
+    """set of the k best indices for exact keys (None = undefined, ranked out); None if a tie
+    makes the set ambiguous"""
+    idx = [i for i, v in enumerate(keys) if v is not None]
+    idx.sort(key=lambda i: -keys[i])
+    vals = [keys[i] for i in idx]
+    if len(set(vals)) != len(vals):
+        return None
+    return frozenset(idx[:k])
+
+
+def gen_two_measure_case(rng):
+    """two association measures for one dtype, BOTH computed (large threshold on the first one),
+    whose rankings disagree inside the first n_best positions, n_best < number of candidates"""
+    case = None
+    for _ in range(80):
+        n = rng.choice([20, 30, 45, 60])
+        y = [0, 1] * (n // 2)
+        rng.shuffle(y)
+        n_best = rng.choice([1, 1, 2])
+        if rng.random() < 0.6:
+            cols = []
+            for _k in range(rng.choice([3, 4, 5])):
+                how = rng.choice(["ranky", "liny", "liny", "noise"])
+                if how == "ranky":  # rank-separated, a few huge outliers: high H, low R
+                    c = [rng.randint(0, 4) + 5 * v for v in y]
+                    for i in rng.sample(range(n), rng.choice([1, 2, 3])):
+                        if y[i] == 0:
+                            c[i] = rng.choice([100, 200, 400])
+                elif how == "liny":  # shifted, overlapping: moderate H, moderate R
+                    w = rng.choice([4, 6, 9])
+                    c = [rng.randint(0, w) + rng.choice([2, 3, 4]) * v for v in y]
+                else:
+                    c = [rng.randint(0, 9) for _ in y]
+                cols.append(c)
+            first = rng.choice(["kruskal", "R"])
+            qm = [first, "R" if first == "kruskal" else "kruskal"]
+            kw = {THRESH_KW[first]: 1e9 if first == "kruskal" else 5.0}
+            case = mk_case("classification", y, cols, [], n_best, qm, None, rng.choice([[], None]), None, kw)
+            ka = [measure_exact("kruskal", c, y)["model"] for c in cols]
+            kb = [measure_exact("R", c, y)["model"] for c in cols]
+        else:
+            cols = []
+            ys = [str(v) for v in y]
+            for _k in range(rng.choice([3, 4, 5])):
+                extra = rng.choice([1, 1, 2, 3])  # 2, 4 or 6 modalities: V and T normalise differently
+                flip = rng.choice([0.05, 0.15, 0.3, 0.4])
+                c = [(v if rng.random() >= flip else rng.choice("01")) + "s%d" % rng.randrange(extra) for v in ys]
+                cols.append(c)
+            first = rng.choice(["cramerv", "tschuprowt"])
+            lm = [first, "tschuprowt" if first == "cramerv" else "cramerv"]
+            kw = {THRESH_KW[first]: 5.0}
+            case = mk_case("classification", y, [], cols, n_best, None, lm, None, rng.choice([[], None]), kw)
+            ka = [measure_exact("cramerv", c, y)["model"] for c in cols]
+            kb = [measure_exact("tschuprowt", c, y)["model"] for c in cols]
+        ka = [None if v in (None, "err") else v for v in ka]
+        kb = [None if v in (None, "err") else v for v in kb]
+        ta, tb = _top(ka, n_best), _top(kb, n_best)
+        if ta is not None and tb is not None and ta != tb and len(cols) > n_best:
+            return case
+    return case
+
+
+def gen_quali_filter_case(rng):
+    """a qualitative candidate with at least two better-ranked kept features, too associated with
+    one of them that is NOT the last one, and with a non-zero association below thresh_corr with
+    the last one (every kept feature must be compared, not only the last / the worst so far)"""
+    case = None
+    for _ in range(120):
+        n = rng.choice([45, 60, 90])
+        u = [rng.randrange(3) for _ in range(n)]
+        v = [rng.randrange(3) for _ in range(n)]
+        y = [1 if rng.random() < 0.05 + 0.30 * a + 0.15 * b else 0 for a, b in zip(u, v)]
+        if len(set(y)) < 2:
+            continue
+        cu = [a if rng.random() > 0.4 else rng.randrange(3) for a in u]
+        w = [rng.randrange(3) for _ in range(n)]
+        cols = [["u%d" % a for a in u], ["v%d" % a for a in v], ["c%d" % a for a in cu], ["w%d" % a for a in w]]
+        kind = rng.choice(["tschuprowt", "tschuprowt", "cramerv"])
+        thr = rng.choice([0.3, 0.35, 0.4, 0.5])
+        fn = (lambda a, b: tschuprowt4_exact(a, b, True)) if kind == "tschuprowt" else (lambda a, b: cramerv2_exact(a, b, True))
+        p = 4 if kind == "tschuprowt" else 2
+        keys = [fn(c, y) for c in cols]
+        if any(k in (None, "err") for k in keys) or len(set(keys)) != len(keys):
+            continue
+        order = sorted(range(4), key=lambda i: -keys[i])
+        tk = Fr(thr) ** p
+        kept, hit = [], False
+        for i in order:
+            a = [fn(cols[i], cols[g]) for g in kept]
+            a = [Fr(0) if x in (None, "err") else x for x in a]
+            if any(x > tk for x in a):
+                if len(kept) >= 2 and a[-1] != 0 and a[-1] <= tk and any(x > tk for x in a[:-1]):
+                    hit = True
+                continue
+            kept.append(i)
+        perm = list(range(4))
+        rng.shuffle(perm)
+        case = mk_case("classification", y, [], [cols[i] for i in perm], rng.choice([3, 4]), None, [kind],
+                       None, [kind], {"thresh_corr": thr})
+        if hit:
+            return case
+    return case
+
+
+def gen_iqr_case(rng):
+    """user-supplied outlier screening before the association measure:
+    quantitative_measures=[iqr_measure, kruskal_measure | R_measure] with thresh_iqr < 1, on a
+    discrete feature with gaps at the quartile positions such that the screening decision depends
+    on the quantile interpolation rule (linear / lower / higher), for x or for -x.
+    The sensitive feature is the first quantitative one."""
+    case = None
+    for _ in range(400):
+        n = rng.choice([19, 22, 26, 30, 38, 40, 47, 55])
+        body = [rng.choice([0, 1, 2, 3, 3, 4, 4, 5, 5, 5]) for _ in range(n - rng.choice([2, 3, 4, 5]))]
+        tail = [rng.choice([7, 8, 9, 10, 12]) for _ in range(n - len(body))]
+        f = body + tail
+        drop = rng.choice([None, 1, 2, 4, 6])
+        f = [v + 1 if drop is not None and v >= drop else v for v in f]  # a gap in the support
+        rng.shuffle(f)
+        med = sorted(f)[n // 2]
+        y = [1 if (v >= med) != (rng.random() < 0.15) else 0 for v in f]
+        if len(set(y)) < 2:
+            continue
+        thr = rng.choice([1 / 32, 1 / 16, 1 / 8, 1 / 4])
+        dec = set()
+        for xs in (f, [-v for v in f]):
+            for meth in ("linear", "lower", "higher"):
+                dec.add((xs is f, iqr_exact(xs, meth) < Fr(thr)))
+        g = [v + rng.randint(0, 3) for v in y]
+        h = [rng.randint(0, 6) for _ in y]
+        second = rng.choice(["kruskal", "kruskal", "R"])
+        if rng.random() < 0.5:
+            f = [float(v) for v in f]
+        case = mk_case("classification", y, [f, g, h], [], rng.choice([1, 2, 3]), ["iqr", second], None,
+                       rng.choice([None, []]), None, {"thresh_iqr": thr})
+        sens = {d for d in dec if d[0]}, {d for d in dec if not d[0]}
+        if len(sens[0]) > 1 or len(sens[1]) > 1:
+            return case
+    return case
+
+
 def mk_case(task, y, quanti, quali, n_best, qm, lm, qf, lf, kw, qnames=None, lnames=None):
     qnames = qnames or ["q%d" % i for i in range(len(quanti))]
     lnames = lnames or ["s%d" % i for i in range(len(quali))]
@@ -952,7 +1131,7 @@ def coq_type(t, sel):
         ds.append(lcm_den(vals))
     mspecs = []
     for j, k in enumerate(ms):
-        mspecs.append(f"mkM {C.cbool(RANKING[k])} {C.cbool(FALSY_NAN[k])} "
+        mspecs.append(f"mkM {C.cbool(RANKING[k])} {C.cbool(FALSY_NAN[k])} {C.cbool(k in GATES)} "
                       f"{C.cZ(t['mthr'][j] * dm[j])} {C.cZ(t['sthr'][j] * ds[j])}")
     rows = []
     for r in t["rows"]:
@@ -1051,7 +1230,11 @@ class C14(Prop):
     def generate(self, rng, tier):
         n = 300 if tier == "quick" else 4000
         nb = 30 if tier == "quick" else 300
-        return [gen_case(rng) for _ in range(n)] + [gen_boundary_case(rng) for _ in range(nb)]
+        ns = 20 if tier == "quick" else 200
+        return ([gen_case(rng) for _ in range(n)] + [gen_boundary_case(rng) for _ in range(nb)]
+                + [gen_two_measure_case(rng) for _ in range(ns)]
+                + [gen_quali_filter_case(rng) for _ in range(ns)]
+                + [gen_iqr_case(rng) for _ in range(ns)])
 
     def search_cases(self, rng, neighbours, rnd):
         return [gen_case(rng) for _ in range(150)]
@@ -1105,7 +1288,7 @@ class C14(Prop):
             elif tag in ("sorted", "maximal", "count"):
                 if case["task"] == "regression" and d == "float" and ms == ["distance"]:
                     sig = "regression_default_distance_measure_sign"
-                elif len(ms) >= 2 or ms == ["chi2"]:
+                elif len([k for k in ms if k not in GATES]) >= 2 or ms == ["chi2"]:
                     sig = "second_measure_never_computed"
                 elif ms == ["rkruskal"] and any(isnan(v) for _, c in case["quali"] for v in decs(c)):
                     sig = "regression_qualitative_nan_group"
